@@ -689,4 +689,4 @@ Definition ex_session : asession :=
     (mkParams 0 "https://c3.example/cb" "" "code" "openid profile" "" "" PkEmpty "" ex_key "" 0 "" []) [].
 Definition ex_store : store := mkStore [] [ex_session] [ex_grant].
 Definition ex_treq (cr : cred) (b : bind_in) : treq :=
-  mkTReq cr b "" ex_code "https://c3.example/cb" ex_rt PkEmpty 0 HgOk BaApprove [].
+  mkTReq cr b "" ex_code "https://c3.example/cb" ex_rt PkEmpty 0 HgOk BaApprove [] AsNone.
